@@ -19,9 +19,12 @@ import (
 	"sort"
 	"strings"
 
+	nethttp "net/http"
+
 	"github.com/ipfs/go-cid"
 	"github.com/ipld/go-car/util"
 	mh "github.com/multiformats/go-multihash"
+	"github.com/storacha/go-ucanto/core/delegation"
 	"github.com/storacha/go-ucanto/server"
 	"github.com/storacha/go-ucanto/transport"
 	uhttp "github.com/storacha/go-ucanto/transport/http"
@@ -78,6 +81,7 @@ func serveBytesEnabled() bool {
 type recChannel struct {
 	srv  server.ServerView
 	body []byte
+	hdr  nethttp.Header
 	n    int
 }
 
@@ -87,6 +91,7 @@ func (c *recChannel) Request(req transport.HTTPRequest) (transport.HTTPResponse,
 		return nil, err
 	}
 	c.body = b
+	c.hdr = req.Headers().Clone()
 	c.n++
 	return c.srv.Request(uhttp.NewHTTPRequest(bytes.NewReader(b), req.Headers()))
 }
@@ -128,14 +133,40 @@ func serveBytesHook(b *Batch, names []string) {
 		return
 	}
 	bcase := b.CoqFor(names, obs) // sbBusy: no recursion
+	caseStr, dids, why := sbRender(b, ch.body, bcase, nil)
+	if why != "" {
+		sbStats[why]++
+		return
+	}
+	sbEmit(w.ID, caseStr, dids, obs, "")
+	// servebytes_bound.go: the same request once more with a token travelling under a CID that is not the
+	// dag-cbor / sha2-256 CID of its bytes (the library reads no field from such a block)
+	sbRelabelled(b, names, ch)
+}
+
+// sbRender: the case record for a request body: the sha2-256 digests of every block the world knows and of every block
+// of the body, the observed signature checks of every token of the world (and of `extra`: tokens made for this body
+// only), the blocks the proof resolver knows, the link numbering, and the rendered answer.
+func sbRender(b *Batch, body []byte, bcase string, extra []delegation.Delegation) (caseStr string, dids [][]byte, why string) {
+	w := b.W
 	// every block the world knows: digests, signature observations
 	keys := castKeys(w.Cast)
 	digests := map[string]string{}
 	sigs := map[string][]int{}
 	conflict := false
-	var dids [][]byte
 	var ext []string
 	extSeen := map[string]bool{}
+	observe := func(d delegation.Delegation) {
+		if m := d.Data().Model(); m != nil {
+			dids = append(dids, m.Iss, m.Aud)
+		}
+		sk, _ := tvObserve(d, keys, nil, nil)
+		s := string(d.Signature().Bytes())
+		if old, ok := sigs[s]; ok && fmt.Sprint(old) != fmt.Sprint(sk) {
+			conflict = true // two tokens carry the same signature bytes with different verdicts: not expressible per signature
+		}
+		sigs[s] = sk
+	}
 	for _, name := range w.order {
 		bt := w.built[name]
 		for blk, err := range bt.Dlg.Blocks() {
@@ -159,30 +190,24 @@ func serveBytesHook(b *Batch, names []string) {
 				}
 			}
 		}
-		if m := bt.Dlg.Data().Model(); m != nil {
-			dids = append(dids, m.Iss, m.Aud)
-		}
-		sk, _ := tvObserve(bt.Dlg, keys, nil, nil)
-		s := string(bt.Dlg.Signature().Bytes())
-		if old, ok := sigs[s]; ok && fmt.Sprint(old) != fmt.Sprint(sk) {
-			conflict = true // two tokens carry the same signature bytes with different verdicts: not expressible per signature
-		}
-		sigs[s] = sk
+		observe(bt.Dlg)
+	}
+	for _, d := range extra {
+		observe(d)
 	}
 	if conflict {
-		sbStats["skipped_signature_conflict"]++
-		return
+		return "", nil, "skipped_signature_conflict"
 	}
 	for _, d := range dids {
 		if len(d) > 600 {
 			// base58 is quadratic: the DID string of a 2 KB "key" costs the Coq side ten seconds; such tokens stay with
 			// the decoded-token correspondence of the batch
-			sbStats["skipped_huge_did"]++
-			return
+			return "", nil, "skipped_huge_did"
 		}
 	}
-	// the root block of the message is in the body too: its digest
-	for _, blk := range sbBlocksOf(ch.body) {
+	// every block of the body (the root block of the message, tokens made for this body only): its digest — the model
+	// needs it for the CAR reader's hash check AND for the dag-cbor / sha2-256 binding of a block to its CID
+	for _, blk := range sbBlocksOf(body) {
 		if _, ok := digests[string(blk)]; !ok {
 			sum, _ := mh.Sum(blk, mh.SHA2_256, -1)
 			dm, _ := mh.Decode(sum)
@@ -207,19 +232,27 @@ func serveBytesHook(b *Batch, names []string) {
 	}
 	sortStrings(ds)
 	sortStrings(ss)
-	caseStr := fmt.Sprintf("{| sb_body := %s;\n sb_digests := [%s];\n sb_links := [%s];\n sb_keys := [%s];\n sb_sigs := [%s];\n sb_ext := [%s];\n sb_case := %s |}",
-		hx(ch.body), strings.Join(ds, "; "), strings.Join(ls, "; "), strings.Join(ks, "; "), strings.Join(ss, "; "), strings.Join(ext, "; "), bcase)
+	caseStr = fmt.Sprintf("{| sb_body := %s;\n sb_digests := [%s];\n sb_links := [%s];\n sb_keys := [%s];\n sb_sigs := [%s];\n sb_ext := [%s];\n sb_case := %s |}",
+		hx(body), strings.Join(ds, "; "), strings.Join(ls, "; "), strings.Join(ks, "; "), strings.Join(ss, "; "), strings.Join(ext, "; "), bcase)
+	return caseStr, dids, ""
+}
+
+// sbEmit files a rendered case (in a child process: as a file the parent collects)
+func sbEmit(id int, caseStr string, dids [][]byte, obs *BatchObs, stat string) {
 	if out, child := sbChildOut(); child {
 		var hd []string
 		for _, d := range dids {
 			hd = append(hd, fmt.Sprintf("%x", d))
 		}
-		writeJSON(out, fmt.Sprintf("sbcase_%06d.json", w.ID), map[string]any{"case": caseStr, "dids": hd})
+		writeJSON(out, fmt.Sprintf("sbcase_%08d.json", id), map[string]any{"case": caseStr, "dids": hd, "stat": stat})
 		return
 	}
 	sbCases = append(sbCases, caseStr)
 	sbDids = append(sbDids, dids)
 	sbStats["requests"]++
+	if stat != "" {
+		sbStats[stat]++
+	}
 	if obs.ExecErr != "" {
 		sbStats["requests_failed_as_a_whole"]++
 	}
@@ -270,6 +303,7 @@ func flushServeBytes(dir, prefix string) error {
 			var rec struct {
 				Case string   `json:"case"`
 				Dids []string `json:"dids"`
+				Stat string   `json:"stat"`
 			}
 			if b, err := os.ReadFile(f); err == nil && json.Unmarshal(b, &rec) == nil {
 				var dd [][]byte
@@ -281,6 +315,9 @@ func flushServeBytes(dir, prefix string) error {
 				sbCases = append(sbCases, rec.Case)
 				sbDids = append(sbDids, dd)
 				sbStats["requests"]++
+				if rec.Stat != "" {
+					sbStats[rec.Stat]++
+				}
 			}
 			os.Remove(f)
 		}
